@@ -136,6 +136,13 @@ def _io(ctx, R, T, cls, meth, libcall, epattr, exc):
 
 def _is_ms(t, tparam, default):
     """t == int(ite(t is not None, t*1000, default*1000)) in either branch order"""
+    if t[0] == "phi":
+        a_ = ("call", "builtins.int", (("op", "*", tparam, ("c", 1000)),), ())
+        a2_ = ("call", "builtins.int", (("op", "*", ("c", 1000), tparam),), ())
+        b_ = ("call", "builtins.int", (("op", "*", default, ("c", 1000)),), ())
+        b2_ = ("call", "builtins.int", (("op", "*", ("c", 1000), default),), ())
+        alts = set(t[1])
+        return len(alts) == 2 and bool(alts & {a_, a2_}) and bool(alts & {b_, b2_})     # which branch when: checked on _timeout_ms itself
     if not (t[0] == "call" and t[1] == "builtins.int" and len(t[2]) == 1):
         return False
     x = t[2][0]
@@ -159,11 +166,22 @@ def _timeout_ms(ctx, R, T, cls):
         R.ok("USB-ms", cls.qualname + "._timeout_ms", "no helper: conversion checked inline at the call sites", cls.mod.relpath, trivial=True)
         return
     g = ctx.cfg(f)
-    for rn in g.live_nodes():
-        if rn.kind == "stmt" and isinstance(rn.ast, ast.Return):
-            t = T.term(f, rn, rn.ast.value)
-            ok = _is_ms(t, ("p", f.params[1]), ("attr", ("p", f.params[0]), "_default_transport_timeout_s"))
-            R.check(ok, "USB-ms", f.qualname, "ms = int(t * 1000), or int(default * 1000) when t is None", "_timeout_ms returns %s; expected int(t*1000) with the default when t is None" % show(t), f.loc(rn.ast))
+    df = ctx.df(f)
+    rets = [rn for rn in g.live_nodes() if rn.kind == "stmt" and isinstance(rn.ast, ast.Return)]
+    tp, dflt = ("p", f.params[1]), ("attr", ("p", f.params[0]), "_default_transport_timeout_s")
+    for rn in rets:
+        t = T.term(f, rn, rn.ast.value)
+        ok = _is_ms(t, tp, dflt) and t[0] != "phi"
+        if not ok and len(rets) == 2 and t[0] == "call" and t[1] == "builtins.int" and len(t[2]) == 1 and t[2][0][0] == "op" and t[2][0][1] == "*" and ("c", 1000) in t[2][0][2:]:
+            other = [x for x in t[2][0][2:] if x != ("c", 1000)]
+            nk = key(ast.Constant(value=None))
+            pk = key(ast.Name(id=f.params[1], ctx=ast.Load()))
+            isnone = [fa[1] for fa in df.facts(rn) if fa[0] == ("is",) + tuple(sorted([pk, nk]))]
+            if other == [tp]:
+                ok = isnone == [False]
+            elif other == [dflt]:
+                ok = isnone == [True]
+        R.check(ok, "USB-ms", f.qualname + "|" + norm_stmt(rn.ast)[:40], "ms = int(t * 1000), or int(default * 1000) when t is None", "_timeout_ms returns %s; expected int(t*1000) with the default exactly when t is None" % show(t), f.loc(rn.ast))
     init = cls.methods["__init__"]
     b = {p: ("p", p) for p in init.params[1:]}
     obj = ("new", cls.qualname, tuple(sorted(b.items())))
